@@ -35,11 +35,11 @@ SpendM == {"delegate", "undelegate", "redelegate", "cancelUnbonding", "ibcTransf
 OwnerM == {"withdrawRewards", "claimRewards", "setWithdrawAddress"}
 ApprM  == {"approve", "increaseAllowance", "decreaseAllowance", "revoke"}
 LeafKinds == {"spend", "spend2", "owner", "appr", "send", "store", "query"}
-Leaf(k, id, d) ==
-    CASE k \in {"spend", "spend2"} -> {Pc(id, md, m, who, a) : md \in {"catch", "bubble"}, m \in SpendM, who \in {"S", "self", "T"}, a \in Amts}
-      [] k = "owner" -> {Pc(id, md, m, who, Amt) : md \in {"catch", "bubble"}, m \in OwnerM, who \in {"S", "self", "T"}}
+Leaf(k, id, d, md) ==
+    CASE k \in {"spend", "spend2"} -> {Pc(id, md, m, who, a) : m \in SpendM, who \in {"S", "self", "T"}, a \in Amts}
+      [] k = "owner" -> {Pc(id, md, m, who, Amt) : m \in OwnerM, who \in {"S", "self", "T"}}
       \* the grantee is the top contract or the calling contract itself (always a tracked account)
-      [] k = "appr"  -> {PcG(id, md, m, ge, a) : md \in {"catch", "bubble"}, m \in ApprM, a \in {"3000000", "1000000", Z},
+      [] k = "appr"  -> {PcG(id, md, m, ge, a) : m \in ApprM, a \in {"3000000", "1000000", Z},
                                                   ge \in IF d = "call" THEN {"C0", "self"} ELSE {"self"}}
       [] k = "send"  -> {Send(id, to, v) : to \in {"S", "T", "W"}, v \in {"300", "50"}}
       [] k = "store" -> {Store(id)}
@@ -61,7 +61,10 @@ Build ==
                    ELSE IF ~CanClose THEN {"leaf"}
                    ELSE IF Len(path) < 2 /\ tree.op = "call" THEN {"leaf", "leaf2", "leaf3", "open", "open2", "close"}
                    ELSE {"leaf", "leaf2", "leaf3", "close"})} :
-       \E o \in {R(Leaf(R(LeafKinds), nid, tree.op))} : \E o2 \in {R(Leaf(R(LeafKinds), nid + 1, tree.op))} :
+       \* a failing precompile call is mostly caught by the calling contract
+       \E pm \in {R({"catch", "catch2", "catch3", "bubble"})} :
+       \E o \in {R(Leaf(R(LeafKinds), nid, tree.op, IF pm = "bubble" THEN "bubble" ELSE "catch"))} :
+       \E o2 \in {R(Leaf(R(LeafKinds), nid + 1, tree.op, IF pm = "bubble" THEN "bubble" ELSE "catch"))} :
        \E cv \in {R({Z, "0", "400"})} : \E md \in {R({"catch", "catch2", "bubble"})} :
        \E term \in {R({"none", "none2", "none3", "rev", "rev2", "inval", "selfd"})} :
        \E keep \in {R(1..3)} : \E ben \in {R({"T", "self", "S"})} :
@@ -86,10 +89,16 @@ Build ==
 \* (contract, grant type) pairs for which the signer's grant matters: the contract spends for the signer
 RECURSIVE Pairs(_, _)
 PairsOp(self, o) == (IF o.op = "pc" /\ TypeOf(o.m) # "-" /\ o.who = "S" THEN {<<self, TypeOf(o.m)>>} ELSE {})
+                    \* allowance arithmetic needs existing grants of both types the harness passes
+                    \cup (IF o.op = "pc" /\ o.m \in ApprM /\ Named(o.grantee, self) # "S"
+                          THEN {<<Named(o.grantee, self), "delegate">>, <<Named(o.grantee, self), "undelegate">>} ELSE {})
                     \cup (IF HasBody(o) THEN Pairs(ContractOf(o), o.body) ELSE {})
 Pairs(self, body) == IF body = <<>> THEN {} ELSE PairsOp(self, body[1]) \cup Pairs(self, Tail(body))
 
-GrantOf(p, k) == [grantee |-> p[1], type |-> p[2], limit |-> IF k = 3 THEN "1500000" ELSE "", expired |-> FALSE, val |-> IF k = 4 THEN 2 ELSE 0]
+\* the allow-list of a grant names one validator: the one the ops of this family address (the destination
+\* for a redelegation), or - kind 4 - another one
+GrantOf(p, k) == [grantee |-> p[1], type |-> p[2], limit |-> IF k = 3 THEN "1500000" ELSE "", expired |-> FALSE,
+                  val |-> IF k = 4 THEN 2 ELSE IF p[2] = "redelegate" THEN 1 ELSE 0]
 RECURSIVE SeqOf(_)
 SeqOf(S) == IF S = {} THEN <<>> ELSE LET x == CHOOSE y \in S : TRUE IN <<x>> \o SeqOf(S \ {x})
 
